@@ -922,6 +922,13 @@ class Flow:
                 add = st.lists.get(src.lid, ())
             elif isinstance(src, AList) and not src.items:
                 add = ()
+            elif isinstance(src, AList) and all(isinstance(x, PairVal) for x in src.items):
+                # pairs.extend([Pair(...)]): a list display of freshly built pairs adds exactly those pairs
+                add = tuple(("P", x) for x in src.items)
+                for _ in src.items:
+                    st.ev("PAIR", recv.lid)
+                st.lists[recv.lid] = cur + add
+                return [(st, None)]
             else:
                 add = (("U", ast.unparse(node.args[0])),)
             st.lists[recv.lid] = cur + add
